@@ -21,7 +21,9 @@ RULE = ("state = one pool of shared record objects: a vector, the modules of a "
         "(in most runs) reference lists with /citation qualifiers. Rules: assemble a "
         "drawn sub-list in a drawn order (complete, with leftover, with a link "
         "missing at any position, with a duplicate, with the unusable vector), inspect "
-        "a pool object (is_valid, overhangs, target_sequence) between calls, and "
+        "a pool object (is_valid, overhangs, target_sequence) between calls, assemble "
+        "with some modules replaced by rotations of the same plasmids made (with the "
+        "real >>) before the first call, and "
         "assemble with a fault injected at crash point j = 0..chain length (the j-th "
         "consumed module's -- or for j = chain length the vector's -- fragment "
         "extraction raises InvalidSequence or RuntimeError). Invariant after every "
@@ -87,6 +89,9 @@ class Pool(object):
         self.records = [annot.participant_record(b, p) for b, p in zip(self.builts, pspecs)]
         self.vectors = [V(self.records[0]), V(self.records[1])]
         self.modules = [M(r) for r in self.records[2:]]
+        # sibling rotations of the chain modules (made with the real >> before
+        # any call; they share qualifier objects with their originals)
+        self.siblings = [M(r >> (7 + 3 * i)) for i, r in enumerate(self.records[2:2 + L])]
         self.nchain = L
         self.snapshots = [rec.snapshot(r) for r in self.records]
 
@@ -105,7 +110,9 @@ class Pool(object):
             return ("inspected", True, str(ent.overhang_start()), str(ent.overhang_end()),
                     rec.snapshot(ent.target_sequence()))
         vec = self.vectors[step["vector"]]
-        mods = [self.modules[i] for i in step["mods"]]
+        sib = set(step.get("sib") or [])
+        mods = [self.siblings[i] if (i in sib and i < self.nchain) else self.modules[i]
+                for i in step["mods"]]
         fault = step.get("fault")
         if fault:
             j, kind = fault
@@ -119,7 +126,8 @@ class Pool(object):
                 vec = Faulty(vec.record)
             else:
                 Faulty = type(str("FaultyModule"), (self.M,), {"target_sequence": boom})
-                mods = [Faulty(m.record) if m is self.modules[j] else m for m in mods]
+                mods = [Faulty(m.record) if (m is self.modules[j] or m is self.siblings[j]) else m
+                        for m in mods]
         with warnings.catch_warnings(record=True) as w:
             warnings.simplefilter("always")
             try:
@@ -278,6 +286,13 @@ def make_machine(ctx, name):
         def assemble_complete(self, data):
             order = data.draw(st.permutations(self._chain()))
             self._do({"vector": 0, "mods": list(order)})
+
+        @rule(data=st.data())
+        def assemble_with_siblings(self, data):
+            # some modules replaced by a rotation of the same plasmid made earlier
+            order = data.draw(st.permutations(self._chain()))
+            sib = data.draw(st.lists(st.sampled_from(self._chain()), min_size=1, max_size=3, unique=True))
+            self._do({"vector": 0, "mods": list(order), "sib": sorted(sib)})
 
         @rule(data=st.data())
         def assemble_with_leftover(self, data):
